@@ -46,6 +46,18 @@ static double dmax(double a, double b) { return a > b ? a : b; }
 static const char* ell_regime(double f) { double af = std::fabs(f); return af <= 1 / 150.0 * (1 + 1e-12) ? "small" : (f >= 0.9 - 1e-9 || f < -1.0 ? "extreme" : "moderate"); }
 
 static const char* AUXN[6] = {"phi", "beta", "theta", "mu", "chi", "xi"};
+// closed-form conversions into the conformal / isometric latitude, relative accuracy of the tangent, all b/a in [0.01, 100]:
+// worst on the unchanged tree 40 eps (phi -> chi, b/a = 0.01); see the subcheck auxlat-conformal
+// schedule (4 x the worst of the unchanged tree over the thorough lattice, floor 64):
+//   |lat| <= 45: 64 for b/a >= 0.05 (observed 10), 1024 below (observed 50 at b/a = 0.01 and 0.02, 161 at b/a = 0.015);
+//   |lat| > 45 (the divided-difference branch): 64 for b/a >= 0.3 (observed 3), 128 for b/a >= 0.1 (observed 25),
+//                4096 below (observed 53 at 0.05, 239 at 0.01, 230 at 0.02, 830 at b/a = 0.015, lat 89.9);
+//   prolate: 64 x the conditioning in b/a (observed 6.6)
+static double tol_conformal(double ba, double lat) {
+  if (ba >= 1) return 64;
+  if (std::fabs(lat) <= 45) return ba >= 0.05 ? 64 : 1024;
+  return ba >= 0.3 ? 64 : (ba >= 0.1 ? 128 : 4096);
+}
 
 // ------------------------------------------------------------------ ellipsoids
 struct ED { const char* name; double ba; };
@@ -113,8 +125,10 @@ static double ang_err(double y, double x, Q tref) {
 static std::vector<double> tan_alphabet(bool thorough) {
   // 1.5e-321 (300 denorm_min) and 1e-310: denormal tangents below / above 2^-1022 * eps, i.e. on both sides of the point
   // where the Newton iterate of FromAuxiliary leaves the normal range (bracket initialisation)
-  std::vector<double> pos{1.5e-321, 1e-310, 1e-20, 1e-3, 0.57735026918962573, 1.0, 57295.77950726455 /* tan 89.999 */, 1e20};
-  if (thorough) for (double x : {4.9406564584124654e-324, 2.2250738585072014e-308, 1e-160, 1e-8, 0.1, 0.41421356237309503, 2.4142135623730949, 10.0, 1e3, 1e8, 1e15, 1e160, 1.7976931348623157e308}) pos.push_back(x);
+  // 1e155 ... max double: finite tangents whose SQUARE overflows (a normalisation by sqrt(y^2 + x^2) instead of hypot fails there)
+  std::vector<double> pos{1.5e-321, 1e-310, 1e-20, 1e-3, 0.57735026918962573, 1.0, 57295.77950726455 /* tan 89.999 */, 1e20,
+                          1e155, 1e160, 1e200, 1e300, 1.7976931348623157e308};
+  if (thorough) for (double x : {4.9406564584124654e-324, 2.2250738585072014e-308, 1e-160, 1e-8, 0.1, 0.41421356237309503, 2.4142135623730949, 10.0, 1e3, 1e8, 1e15}) pos.push_back(x);
   if (thorough) {   // deep tier: every 10th decade, and the tangents of a ladder of angles up to 89.99999999 degrees
     for (int k = -300; k <= 300; k += 10) { double x = std::pow(10.0, k); if (std::find(pos.begin(), pos.end(), x) == pos.end()) pos.push_back(x); }
     for (double d : {1e-6, 0.01, 1.0, 5.0, 10.0, 15.0, 20.0, 25.0, 35.0, 40.0, 50.0, 55.0, 60.0, 65.0, 70.0, 75.0, 80.0, 85.0, 88.0, 89.0, 89.9, 89.99, 89.9999, 89.999999, 89.99999999}) {
@@ -129,7 +143,17 @@ static std::vector<double> tan_alphabet(bool thorough) {
 static const char* tan_class(double t) {
   double a = std::fabs(t);
   if (a > 0 && a != DMIN && a < 1e-315) return "deep_denormal";
-  return a == DMIN ? "denorm_min" : (a == std::numeric_limits<double>::max() ? "dbl_max" : (a >= 1e170 && std::isfinite(a) ? "ge-1e170" : "normal"));
+  return a == DMIN ? "denorm_min" : (a >= 1e308 && std::isfinite(a) ? "dbl_max" : (a >= 1e170 && std::isfinite(a) ? "ge-1e170" : "normal"));
+}
+// The known-finding classes denorm_min / dbl_max / ge-1e170 are genuine only for conversions that run the Newton inverse
+// (from mu, chi, xi) or the conformal formula (to chi); every other conversion of such a tangent gets the suffix "-direct" and is
+// not excused.  `inverse` = the predicate also runs the reverse conversion to -> from.
+static std::string tan_class_for(double t, int from, int to, bool inverse) {
+  std::string c = tan_class(t);
+  if (c == "normal" || c == "deep_denormal") return c;
+  bool fragile = from >= 3 || to == merid::CHI || (inverse && to >= 3);
+  if (c == "ge-1e170") fragile = from == merid::CHI || (inverse && to == merid::CHI);      // NaN of the chi -> phi Newton iteration only
+  return fragile ? c : c + "-direct";
 }
 static AuxAngle mk(double t) { return std::isinf(t) ? AuxAngle(t > 0 ? 1.0 : -1.0, 0.0) : AuxAngle(t, 1.0); }
 
@@ -141,14 +165,15 @@ static void check_aux(Ctx& ctx, EnvE& v, int from, const std::vector<double>& al
     if (!ex && !v.small) continue;                              // series method: documented for |f| <= 1/150
     const char* meth = ex ? "exact" : "series";
     std::string base = std::string("aux ") + v.d->name + " " + AUXN[from] + "->" + AUXN[to] + " " + meth;
-    const char* tcls = "normal";
-    auto FF = [&](const std::string& kind) { mc::Fields F = F0; F.push_back({"to", AUXN[to]}); F.push_back({"method", meth}); F.push_back({"tan_class", tcls}); F.push_back({"kind", kind}); return F; };
+    const char* tcls = "normal"; double tcur = 0;
+    auto FF = [&](const std::string& kind) { mc::Fields F = F0; F.push_back({"to", AUXN[to]}); F.push_back({"method", meth});
+      F.push_back({"tan_class", tan_class_for(tcur, from, to, kind == "inverse-composition" || kind == "series-vs-exact")}); F.push_back({"kind", kind}); return F; };
     double prev = -INF; bool havep = false;
     std::vector<double> outs;
     for (double t : al) {
       Ctx::Case cs(ctx);
       std::string key = base + " tan " + fx(t);
-      tcls = tan_class(t);
+      tcls = tan_class(t); tcur = t;
       AuxAngle z = mk(t), r;
       int sg = mc::crashed([&] { r = A.Convert(from, to, z, ex); });
       if (sg) { cfail(ctx, key, "Convert crashed with signal " + fmti(sg), FF("crash")); continue; }
@@ -199,7 +224,7 @@ static void check_aux(Ctx& ctx, EnvE& v, int from, const std::vector<double>& al
       for (size_t i = 0; i < outs.size(); ++i) {
         double p = outs[i], m = outs[outs.size() - 1 - i];
         if (std::isnan(p) && std::isnan(m)) continue;                 // reported by the range predicate
-        tcls = tan_class(al[i]);
+        tcls = tan_class(al[i]); tcur = al[i];
         if (!(p == -m)) { cfail(ctx, base + " odd " + fx(al[i]), "not odd: f(" + fx(al[i]) + ") = " + fx(p) + ", f(-x) = " + fx(m), FF("odd")); break; }
       }
     }
@@ -247,7 +272,8 @@ static void check_aux_misc(Ctx& ctx, EnvE& v, const std::vector<double>& al) {
     Ctx::Case cs(ctx);
     std::string key = std::string("auxmisc ") + v.d->name + " " + AUXN[aux] + " tan " + fx(t);
     const char* tcls = tan_class(t);
-    auto FF = [&](const std::string& kind) { mc::Fields F = F0; F.push_back({"aux", AUXN[aux]}); F.push_back({"tan_class", tcls}); F.push_back({"kind", kind}); return F; };
+    auto FF = [&](const std::string& kind) { mc::Fields F = F0; F.push_back({"aux", AUXN[aux]});
+      F.push_back({"tan_class", kind == "toaux-consistency" || kind == "derivative" ? tan_class_for(t, 0, aux, false) : tan_class_for(t, aux, 0, false)}); F.push_back({"kind", kind}); return F; };
     double diff = -777; int niter = -777;
     AuxAngle r = v.aux.ToAuxiliary(aux, mk(t), &diff), r0 = v.aux.ToAuxiliary(aux, mk(t)), c = v.aux.Convert(0, aux, mk(t), true);
     if (!mc::same_bits(r.tan(), r0.tan()) || !(r.tan() == c.tan() || (std::isnan(r.tan()) && std::isnan(c.tan()))))
@@ -304,6 +330,115 @@ static void check_aux_monotone(Ctx& ctx, EnvE& v) {
     }
     if (bad) cfail(ctx, std::string("mono ") + v.d->name + " " + AUXN[from] + "->" + AUXN[to] + (ex ? " exact" : " series"), "decreasing / out of range / fixed points moved on the 0.25 degree grid, first at " + fmt(where) + " (" + fmti(bad) + " places)",
                       {{"ellipsoid", v.d->name}, {"from", AUXN[from]}, {"to", AUXN[to]}, {"method", ex ? "exact" : "series"}, {"kind", "monotone-grid"}});
+  }
+}
+
+
+// ------------------------------------------------------------------ AuxAngle::normalized() and un-normalised inputs
+// (y, x) pairs whose components are both tiny / both huge / of wildly different magnitude: normalized() must return a point of the
+// unit circle with the same tangent and quadrant (documented: "the point lying on the unit circle"; NaN only for (0,0), (inf,inf),
+// NaN or both components above max/2)
+static const double SCALED[][2] = {{3e-170, 4e-170}, {1e-200, 1e-200}, {1.5e-323, 2e-323} /* 3, 4 denorm_min */, {3e200, 4e200}, {5e153, 12e153}, {1e-160, 1e-155},
+                                   {1e200, 1e-100}, {1e-300, 1e10}, {1e155, 1.0}, {1e160, 1.0}, {1e200, 1.0}, {1e300, 1.0}, {1.7976931348623157e308, 1.0}, {1.0, 1e160}, {1.0, 1e300},
+                                   {1e-200, 1e-30}, {2e-160, 1e-160}, {8e307, 6e307}, {8e300, 6e300}, {0.6, 0.8}};
+static void check_auxangle(Ctx& ctx) {
+  for (auto& p : SCALED) for (int sy = 1; sy >= -1; sy -= 2) for (int sx = 1; sx >= -1; sx -= 2) {
+    Ctx::Case cs(ctx);
+    double y = sy * p[0], x = sx * p[1];
+    AuxAngle a(y, x), n = a.normalized();
+    std::string key = "AuxAngle(" + fx(y) + "," + fx(x) + ").normalized()";
+    Q hq = hypotq((Q)n.y(), (Q)n.x()), t0 = (Q)y / (Q)x, t1 = (Q)n.y() / (Q)n.x();
+    bool quad = std::signbit(n.y()) == std::signbit(y) && std::signbit(n.x()) == std::signbit(x);
+    // the tangent can only be compared where it is representable as the ratio of two numbers <= 1 in magnitude (>= denorm)
+    double et = (fabsq(t0) > (Q)1e300 || fabsq(t0) < (Q)1e-300) ? 0 : (double)(fabsq(t1 - t0) / fabsq(t0));
+    double eh = (double)fabsq(hq - 1);
+    cworst(ctx, "auxangle.normalized_err_over_tol", dmax(et, eh) / (4 * EPS), [&] { return key; });
+    if (std::isnan(n.y()) || std::isnan(n.x()) || !(eh <= 4 * EPS) || !(et <= 4 * EPS) || !quad)
+      cfail(ctx, key, "normalized() = (" + fx(n.y()) + "," + fx(n.x()) + "): hypot - 1 = " + fmt(eh) + ", relative change of the tangent " + fmt(et) + (quad ? "" : ", quadrant changed"), {{"kind", "normalized"}});
+    // radians()/degrees() of the un-normalised pair
+    Q ar = atan2q((Q)y, (Q)x);
+    if (!(std::fabs(a.radians() - (double)ar) <= 4 * EPS * (double)fabsq(ar) + 8 * DMIN) || !(std::fabs(a.degrees() - (double)(ar * 180 / q128::pi())) <= 4 * EPS * (double)fabsq(ar * 180 / q128::pi()) + 512 * DMIN))
+      cfail(ctx, key + " angle", "radians() = " + fx(a.radians()) + ", degrees() = " + fx(a.degrees()) + " but atan2(y,x) = " + qs(ar), {{"kind", "auxangle-angle"}});
+  }
+}
+// conversions of un-normalised AuxAngle inputs in the first/fourth quadrant: the result depends on the tangent only
+static void check_aux_scaled(Ctx& ctx, EnvE& v, int from) {
+  mc::Fields F0{{"ellipsoid", v.d->name}, {"ell_regime", v.reg}, {"from", AUXN[from]}};
+  for (int to = 0; to < 6; ++to) for (int ex = 1; ex >= 0; --ex) {
+    if (!ex && !v.small) continue;
+    const char* meth = ex ? "exact" : "series";
+    for (auto& p : SCALED) for (int sy = 1; sy >= -1; sy -= 2) {
+      double y = sy * p[0], x = p[1], t = y / x;
+      if (!(std::fabs(t) >= 1e-300 && std::fabs(t) <= 1e300)) continue;              // the extreme tangents proper are in the main lattice
+      if (std::fabs(y) < 1e-305 || std::fabs(x) < 1e-305) continue;                  // denormal components are quantised: the tangent itself is not representable
+      if (std::fabs(y) > 1e303 && std::fabs(x) > 1e303) continue;                    // both components within (a/b)^2 of max double: y/(1-f)^2 overflows (reported, not demanded)
+      Ctx::Case cs(ctx);
+      std::string key = std::string("auxscaled ") + v.d->name + " " + AUXN[from] + "->" + AUXN[to] + " " + meth + " (y,x) = (" + fx(y) + "," + fx(x) + ")";
+      auto FF = [&](const std::string& kind) { mc::Fields F = F0; F.push_back({"to", AUXN[to]}); F.push_back({"method", meth}); F.push_back({"tan_class", tan_class_for(t, from, to, false)}); F.push_back({"kind", kind}); return F; };
+      AuxAngle r = v.aux.Convert(from, to, AuxAngle(y, x), ex);
+      double rt = r.tan();
+      if (r.x() < 0 || std::isnan(rt)) { cfail(ctx, key, "result (" + fx(r.y()) + "," + fx(r.x()) + ") is not a latitude in [-90,90]", FF("scaled-range")); continue; }
+      Q ref = v.conv(from, to, t);
+      double cond = 1 + v.kappa(from, to, t) / 8;
+      if (ex) {
+        const char* cls = from < 3 && to < 3 ? "closed" : "newton";
+        double e = tan_err(rt, ref), tol = C15tol(std::string("aux.exact.") + cls, v.reg) * EPS * cond;
+        cworst(ctx, std::string("aux.scaled_exact_relerr_over_tol.") + v.reg, e / tol, [&] { return key; });
+        if (!(e <= tol)) cfail(ctx, key, "tan = " + fx(rt) + " differs from the definition " + qs(ref) + " by " + fmt(e / EPS) + " eps (relative)", FF("scaled-exact-value"));
+      } else {
+        double e = ang_err(r.y(), r.x(), ref), tol = C15tol("aux.series", v.reg) * EPS;
+        cworst(ctx, "aux.scaled_series_angle_err_over_tol", e / tol, [&] { return key; });
+        if (!(e <= tol)) cfail(ctx, key, "series result tan = " + fx(rt) + " differs from the definition " + qs(ref) + " by " + fmt(e / EPS) + " eps in the angle", FF("scaled-series-value"));
+      }
+    }
+  }
+}
+
+// ------------------------------------------------------------------ conformal / isometric latitude on strongly eccentric ellipsoids
+// tan(chi) = sinh(asinh(tan phi) - e atanh(e sin phi)) is a closed form; the library evaluates it without Newton iteration, with a
+// cancellation-free rearrangement for f > 0.  It is therefore held to a tight relative tolerance on the whole documented range
+// b/a in [0.01, 100] at low and middle latitudes (where a cancelling evaluation loses eps/(1-e^2)^1.5), not to the calibrated
+// tolerance of the Newton-based conversions of the "extreme" regime.
+static void check_conformal(Ctx& ctx, double ba, bool thorough) {
+  const double a = A0, f = 1 - ba;
+  merid::Ell E = merid::ell(a, f); AuxLatitude A(a, f); Ellipsoid L(a, f);
+  char nm[40]; snprintf(nm, sizeof nm, "b/a=%g", ba);
+  mc::Fields F0{{"ellipsoid", nm}};
+  std::vector<double> lats{0.01, 0.1, 1, 1.93, 5, 10, 12.43, 20, 30, 40, 45, 60, 75, 85, 89};
+  if (thorough) for (double x : {1e-6, 0.03, 0.3, 0.5, 2.0, 3.0, 7.5, 15.0, 19.3, 25.0, 27.4, 35.0, 50.0, 70.0, 80.0, 88.0, 89.9}) lats.push_back(x);
+  // conditioning with respect to the shape parameter (as in EnvE::kappa): only prolate ellipsoids have kappa >> 1
+  auto kappa = [&](Q tp) {
+    Q d = 1e-9Q; merid::Ell Ep = E, Em = E;
+    Ep.fm1 = E.fm1 * (1 + d); Ep.f = 1 - Ep.fm1; Ep.e2 = Ep.f * (2 - Ep.f); Ep.e2m = Ep.fm1 * Ep.fm1;
+    Em.fm1 = E.fm1 * (1 - d); Em.f = 1 - Em.fm1; Em.e2 = Em.f * (2 - Em.f); Em.e2m = Em.fm1 * Em.fm1;
+    return (double)(fabsq(logq(merid::tan_chi(Ep, tp)) - logq(merid::tan_chi(Em, tp))) / (2 * d)); };
+  for (double l0 : lats) for (int sg = 1; sg >= -1; sg -= 2) {
+    Ctx::Case cs(ctx);
+    double lat = sg * l0;
+    std::string key = std::string("conformal ") + nm + " lat " + fx(lat);
+    Q tq = merid::tand(lat); double t = (double)tq;
+    Q tphi = (Q)t;                                   // the AuxAngle input carries the rounded tangent
+    double cond = 1 + kappa(fabsq(tphi)) / 8, tol = tol_conformal(ba, lat) * EPS * cond;
+    auto chk = [&](const char* what, double got, Q ref) {
+      double e = (double)(fabsq((Q)got - ref) / fabsq(ref));
+      if (std::isnan(got)) e = INF;
+      cworst(ctx, std::string("conformal.") + what + "_relerr_over_tol." + (l0 <= 45 ? "lat<=45." : "lat>45.") + nm, e / tol, [&] { return key; });
+      if (!(e <= tol)) { mc::Fields F = F0; F.push_back({"kind", std::string("conformal-") + what}); cfail(ctx, key + " " + what, std::string(what) + " = " + fx(got) + " but the closed form gives " + qs(ref) + " (" + fmt(e / EPS) + " eps relative)", F); } };
+    // phi, beta, theta -> chi (exact method, closed forms all the way)
+    for (int from = 0; from < 3; ++from) {
+      double tin = from == 0 ? t : (double)((from == 1 ? E.fm1 : E.e2m) * tphi);            // tangent of beta / theta for this phi, rounded
+      Q tph = from == 0 ? (Q)tin : (Q)tin / (from == 1 ? E.fm1 : E.e2m);
+      Q ref = merid::tan_chi(E, fabsq(tph)); if (tin < 0) ref = -ref;
+      chk((std::string(AUXN[from]) + "->chi").c_str(), A.Convert(from, merid::CHI, AuxAngle(tin, 1.0), true).tan(), ref);
+    }
+    { Q ref = merid::tan_chi(E, fabsq(tphi)); if (t < 0) ref = -ref;
+      chk("ToAuxiliary(chi)", A.ToAuxiliary(merid::CHI, AuxAngle(t, 1.0)).tan(), ref); }
+    // Ellipsoid (degree interface): conformal latitude as an angle, isometric latitude
+    { Q tc = merid::tan_chi(E, fabsq(tq)); if (lat < 0) tc = -tc;
+      chk("Ellipsoid::ConformalLatitude", L.ConformalLatitude(lat), merid::atand(tc));
+      Q psi = merid::psi_iso(E, fabsq(tq)) * 180 / q128::pi(); if (lat < 0) psi = -psi;
+      chk("Ellipsoid::IsometricLatitude", L.IsometricLatitude(lat), psi); }
+    if (ctx.want_sample()) ctx.sample(key);
   }
 }
 
@@ -450,6 +585,20 @@ static void check_ellipsoid(Ctx& ctx, EnvE& v, bool thorough) {
       rel_check(ctx, key, "CylindricalEqualArea-y(AlbersEqualArea,stdlat=0)", y, merid::authalic_radius2(E) * sxi / E.a, TOL_XCLASS, F0, 2 * (Q)DMIN);
     }
     if (ctx.want_sample()) ctx.sample(key);
+  }
+  // inverse isometric latitude far beyond the range reached from latitudes in degrees: tan(chi) = sinh(psi) is huge but finite up to
+  // psi ~ 40700 degrees, then infinite; the answer is +-90 (to round-off) throughout
+  for (double p0 : {2000.0, 10000.0, 20000.0, 20400.0, 25000.0, 30000.0, 40000.0, 40700.0, 50000.0, 1e5, INF}) for (int sg = 1; sg >= -1; sg -= 2) {
+    Ctx::Case cs(ctx);
+    double psi = sg * p0, got = L.InverseIsometricLatitude(psi);
+    std::string key = ek + " InverseIsometricLatitude(" + fmt(psi) + ")";
+    Q ref = 90;
+    if (std::isfinite(p0)) { Q tchi = sinhq((Q)p0 * q128::pi() / 180); ref = merid::atand(merid::from_aux(E, merid::CHI, tchi)); }
+    double tl = std::sinh(p0 * 0.017453292519943295);          // the tangent the library feeds to the chi -> phi conversion
+    mc::Fields F = F0; F.push_back({"ell_regime", v.reg}); F.push_back({"tan_class", tan_class_for(tl, merid::CHI, 0, false)}); F.push_back({"kind", "InverseIsometricLatitude-large"});
+    double e = std::isnan(got) ? INF : (double)fabsq((Q)std::fabs(got) - ref) / 90;
+    cworst(ctx, std::string("ellipsoid.InverseIsometricLatitude-large_err_over_tol.") + v.reg, e / (TOL_ELL_LAT * EPS), [&] { return key; });
+    if (!(e <= TOL_ELL_LAT * EPS) || (got > 0) != (psi > 0)) cfail(ctx, key, "InverseIsometricLatitude(" + fmt(psi) + ") = " + fx(got) + " but the definition gives " + qs(sg * ref), F);
   }
   delete tm; delete tme; delete merc; delete cea;
 }
@@ -725,6 +874,77 @@ static void check_ellint(Ctx& ctx, const Obj& o, bool thorough) {
   }
 }
 
+
+// ------------------------------------------------------------------ E2: Reset histories of one EllipticFunction object
+// Explicit-state BFS over all sequences of Reset(k2, alpha2) / Reset(k2, alpha2, kp2, alphap2) up to the depth bound, starting from
+// the default-constructed object, over a parameter alphabet that FORCES collisions (same k2 with alpha2 in {0, 0.3, -2, k2, 1},
+// different k2 with the same alpha2, k2 = 0, k2 < 0, k2 = 1).  States are de-duplicated on the bit patterns of all eleven private
+// fields.  Differential oracle, no tolerance: after every history the object must be bit for bit a freshly constructed
+// EllipticFunction with the arguments of the LAST operation: fields, every accessor, incomplete integrals below and beyond pi/2,
+// periodic parts, am, sncndn, Einv.  Plus the documented reductions Pi = K, G = E, H = K - D at alpha2 = 0 and G = K,
+// Pi = E/k'^2 at alpha2 = k2.
+struct EFKey { uint64_t w[11]; bool operator<(const EFKey& o) const { return memcmp(w, o.w, sizeof w) < 0; } bool operator==(const EFKey& o) const { return !memcmp(w, o.w, sizeof w); } };
+static EFKey ef_key(const EllipticFunction& e) {
+  EFKey k; int i = 0;
+  for (double d : {e._k2, e._kp2, e._alpha2, e._alphap2, e._eps, e._kKc, e._eEc, e._dDc, e._pPic, e._gGc, e._hHc}) k.w[i++] = mc::bits(d);
+  return k;
+}
+struct EFOp { double k2, a2, kp2, ap2; bool four; };
+static std::string ef_opname(const EFOp& o) { return o.four ? "Reset(" + fmt(o.k2) + "," + fmt(o.a2) + "," + fmt(o.kp2) + "," + fmt(o.ap2) + ")" : "Reset(" + fmt(o.k2) + "," + fmt(o.a2) + ")"; }
+static void ef_observe(const EllipticFunction& e, std::vector<double>& out) {
+  out.clear();
+  for (double v : {e.k2(), e.kp2(), e.alpha2(), e.alphap2(), e.K(), e.E(), e.D(), e.KE(), e.Pi(), e.G(), e.H()}) out.push_back(v);
+  for (double phi : {0.5, 2.0, -4.0}) for (int k = 0; k < 6; ++k) out.push_back(lib_inc(e, k, phi));
+  { double sn = std::sin(2.5), cn = std::cos(2.5), dn = e.Delta(sn, cn); for (int k = 0; k < 6; ++k) { out.push_back(lib_inc3(e, k, sn, cn, dn)); out.push_back(lib_delta(e, k, sn, cn, dn)); } }
+  { double sn, cn, dn; out.push_back(e.am(0.7, sn, cn, dn)); out.push_back(sn); out.push_back(cn); out.push_back(dn); }
+  if (e.k2() >= 0) { double sn, cn, dn; e.sncndn(0.7, sn, cn, dn); out.push_back(sn); out.push_back(cn); out.push_back(dn); }
+  out.push_back(e.Einv(0.4)); out.push_back(e.Ed(100.0)); out.push_back(e.deltaEinv(std::sin(0.3), std::cos(0.3)));
+}
+static void check_ellint_history(Ctx& ctx, const std::vector<EFOp>& ops, int depth) {
+  struct Node { EllipticFunction e; std::vector<int> hist; };
+  std::map<EFKey, int> seen; std::vector<Node> frontier;
+  { Node n{EllipticFunction(), {}}; seen[ef_key(n.e)] = 0; frontier.push_back(n); }
+  uint64_t ntrans = 0; std::vector<double> o1, o2;
+  for (int d = 1; d <= depth && !frontier.empty(); ++d) {
+    std::vector<Node> next;
+    for (const Node& n : frontier) for (int oi = 0; oi < (int)ops.size(); ++oi) {
+      Ctx::Case cs(ctx);
+      ++ntrans;
+      const EFOp& o = ops[oi];
+      Node m = n; m.hist.push_back(oi);
+      if (o.four) m.e.Reset(o.k2, o.a2, o.kp2, o.ap2); else m.e.Reset(o.k2, o.a2);
+      EllipticFunction F = o.four ? EllipticFunction(o.k2, o.a2, o.kp2, o.ap2) : EllipticFunction(o.k2, o.a2);
+      std::string hs; for (int h : m.hist) hs += (hs.empty() ? "" : "; ") + ef_opname(ops[h]);
+      std::string key = "history " + hs;
+      mc::Fields F0{{"k2", fmt(o.k2)}, {"alpha2", fmt(o.a2)}, {"ctor", o.four ? "4-arg" : "2-arg"}, {"depth", fmti(d)}};
+      auto FF = [&](const char* kind) { mc::Fields f = F0; f.push_back({"kind", kind}); return f; };
+      ctx.sig(d * 2 + (o.four ? 1 : 0));
+      EFKey km = ef_key(m.e), kf = ef_key(F);
+      if (!(km == kf))
+        cfail(ctx, key + " fields", "private state after the history differs from a fresh EllipticFunction of the last operation: K,E,D = " + fx(m.e._kKc) + "," + fx(m.e._eEc) + "," + fx(m.e._dDc) + " Pi,G,H = " + fx(m.e._pPic) + "," + fx(m.e._gGc) + "," + fx(m.e._hHc) +
+              " vs Pi,G,H = " + fx(F._pPic) + "," + fx(F._gGc) + "," + fx(F._hHc), FF("history-state"));
+      ef_observe(m.e, o1); ef_observe(F, o2);
+      for (size_t i = 0; i < o1.size(); ++i) if (!mc::same_bits(o1[i], o2[i]) && !(std::isnan(o1[i]) && std::isnan(o2[i]))) {
+        cfail(ctx, key + " behaviour", "observable #" + fmti((long long)i) + " (accessors, F/E/D/Pi/G/H at 0.5, 2, -4, (sn,cn,dn) forms and delta-functions at 2.5, am, sncndn, Einv, Ed, deltaEinv) is " + fx(o1[i]) + " but a fresh object gives " + fx(o2[i]), FF("history-behaviour"));
+        break; }
+      // documented reductions (tolerance 64 eps of K resp. E; skipped where the complete integrals are infinite)
+      const double K = m.e.K(), E = m.e.E(), D = m.e.D();
+      if (o.a2 == 0) {
+        if (!(mc::same_bits(m.e.Pi(), K) && mc::same_bits(m.e.G(), E))) cfail(ctx, key + " alpha0", "alpha2 = 0 but Pi() = " + fx(m.e.Pi()) + " != K() = " + fx(K) + " or G() = " + fx(m.e.G()) + " != E() = " + fx(E), FF("reduction-alpha2=0"));
+        if (std::isfinite(K) && !(std::fabs(m.e.H() - (K - D)) <= 64 * EPS * K)) cfail(ctx, key + " alpha0H", "alpha2 = 0 but H() = " + fx(m.e.H()) + " != K - D = " + fx(K - D), FF("reduction-alpha2=0"));
+      }
+      if (o.a2 == o.k2 && o.k2 != 0 && std::isfinite(K) && o.kp2 > 0) {
+        if (!(std::fabs(m.e.G() - K) <= 64 * EPS * K)) cfail(ctx, key + " alphak", "alpha2 = k2 but G() = " + fx(m.e.G()) + " != K() = " + fx(K), FF("reduction-alpha2=k2"));
+        if (!(std::fabs(m.e.Pi() - E / o.kp2) <= 64 * EPS * (E / o.kp2 + K))) cfail(ctx, key + " alphakPi", "alpha2 = k2 but Pi() = " + fx(m.e.Pi()) + " != E/k'^2 = " + fx(E / o.kp2), FF("reduction-alpha2=k2"));
+      }
+      if (ctx.want_sample()) ctx.sample(key);
+      if (seen.emplace(km, d).second) next.push_back(m);
+    }
+    frontier.swap(next);
+  }
+  ctx.count("history_states", seen.size()); ctx.count("history_transitions", ntrans);
+}
+
 // ------------------------------------------------------------------ Carlson symmetric forms
 static void carlson_cmp(Ctx& ctx, const std::string& key, const char* fn, double got, Q ref, std::initializer_list<double> args) {
   // regime: compact = non-zero arguments within a factor 4 of each other; spread = within [1e-10, 1e10]; extreme otherwise
@@ -769,6 +989,20 @@ int main(int argc, char** argv) {
     for (int i : eidx) for (int from = 0; from < 6; ++from) { if (!ctx.take()) continue; check_aux_degrees(ctx, *env(i), from); }
     ctx.sub("auxlat-misc");
     for (int i : eidx) { if (!ctx.take()) continue; check_aux_misc(ctx, *env(i), al); }
+    ctx.sub("auxangle");
+    ctx.bound("auxangle.pairs", "AuxAngle(y,x).normalized()/radians()/degrees() on 20 (|y|,|x|) pairs x 4 quadrants: both components tiny (1e-170, 1e-200, denormals), both huge (1e200, 8e307), ratio > 1e154 either way, tangents 1e155 ... max double");
+    if (ctx.take()) check_auxangle(ctx);
+    ctx.sub("auxlat-scaled");
+    ctx.bound("aux.scaled", "the same ellipsoids x 36 pairs x methods x un-normalised inputs AuxAngle(+-y, x) with both components tiny / huge / disparate (tangent within [1e-300, 1e300]): result must depend on the tangent only");
+    for (int i : eidx) for (int from = 0; from < 6; ++from) { if (!ctx.take()) continue; check_aux_scaled(ctx, *env(i), from); }
+    ctx.sub("auxlat-conformal");
+    {
+      std::vector<double> bas{1 - 1 / 298.257223563, 0.3, 0.1, 0.05, 0.02, 0.01, 1 / 0.3, 10, 20, 50, 100};
+      if (T) for (double x : {0.9, 0.7, 0.5, 0.2, 0.03, 0.015, 1.1, 2.0, 5.0, 30.0, 70.0}) bas.push_back(x);
+      ctx.bound("aux.conformal", std::string("closed-form conversions phi/beta/theta -> chi (exact), ToAuxiliary(chi), Ellipsoid::ConformalLatitude, IsometricLatitude on b/a in {WGS84, 0.3, 0.1, 0.05, 0.02, 0.01, 1/0.3, 10, 20, 50, 100") +
+                (T ? ", 0.9, 0.7, 0.5, 0.2, 0.03, 0.015, 1.1, 2, 5, 30, 70" : "") + "} x +-" + (T ? "32" : "15") + " latitudes 0.01 ... 89 deg, relative error of the tangent / of psi <= 64 eps (1024 for b/a < 0.05; above 45 deg 128 for b/a < 0.3, 4096 for b/a < 0.1; x conditioning in b/a for prolate)");
+      for (double ba : bas) { if (!ctx.take()) continue; check_conformal(ctx, ba, T); }
+    }
     ctx.sub("auxlat-monotone");
     ctx.bound("aux.monotone", "every pair x method non-decreasing on the grid -90(0.25)90 degrees, 0 and +-90 fixed");
     for (int i : eidx) { if (!ctx.take()) continue; check_aux_monotone(ctx, *env(i)); }
@@ -803,6 +1037,20 @@ int main(int argc, char** argv) {
     ctx.bound("ellint.arguments", std::string("phi: +-{0,1e-8,0.5,pi/2,pi/2-1e-9,pi/2+1e-9,3,20") + (T ? ",1e-300,1e-100,1e-3,0.1,1,1.2,1.5,pi/2-+1e-5,pi/2-+1e-3,2,2.5,pi,4,3pi/2,2pi,7.5,10,31.4,50,100,100pi,1000,12345.678" : "") + "}; (sn,cn,dn) forms and delta-functions at " + (T ? "50" : "18") + " amplitudes in (-pi,pi]; Ed at 15 angles; Einv, am, sncndn at x: +-{0,1e-8,0.5,near and at the quarter period,3,20,...}");
     ctx.sub("elliptic");
     for (const Obj& o : objs) { if (!ctx.take()) continue; check_ellint(ctx, o, T); }
+    // E2: Reset histories
+    ctx.sub("elliptic-history");
+    {
+      std::vector<double> hk{0, 0.5, 0.7, -3, 1}, ha{0, 0.3, -2, 1};
+      if (T) { for (double x : {1e-10, 0.99, -1e4, 1 - 1e-12}) hk.push_back(x); for (double x : {-1e4, 0.99}) ha.push_back(x); }
+      std::vector<EFOp> ops;
+      for (double k2 : hk) { std::vector<double> as = ha; if (std::find(as.begin(), as.end(), k2) == as.end()) as.push_back(k2);      // alpha2 = k2 as well
+        for (double a2 : as) { ops.push_back({k2, a2, 1 - k2, 1 - a2, false}); ops.push_back({k2, a2, 1 - k2, 1 - a2, true}); } }
+      ops.push_back({1.0, 0.0, 1e-20, 1.0, true}); ops.push_back({1.0, 0.3, 1e-20, 0.7, true});              // complements only the 4-argument form can express
+      const int depth = T ? 4 : 3;
+      ctx.bound("ellint.history", std::string("E2 BFS over all histories of ") + fmti((long long)ops.size()) + " Reset operations (2- and 4-argument forms; k2 in {0,0.5,0.7,-3,1" + (T ? ",1e-10,0.99,-1e4,1-1e-12" : "") + "} x alpha2 in {0,0.3,-2,1,k2" + (T ? ",-1e4,0.99" : "") +
+                "}; 2 objects with k'2 = 1e-20) up to depth " + fmti(depth) + " from the default-constructed object; states de-duplicated on the bits of all private fields; every state compared bit for bit with a fresh object");
+      if (ctx.take()) check_ellint_history(ctx, ops, depth);
+    }
   }
 
   // ================================================================= Carlson
